@@ -641,20 +641,46 @@ void *h3byp_realloc(void *ptr, size_t size) {
 // still yields a reference result and the defect is judged on the simulated
 // side.
 #include <unordered_map>
+// The shim serves the reference copy from an arena of its own (bump allocation, 64-byte gaps, reset by the sweep
+// after every reference execution), NOT from glibc: a defective tree that overruns or double-frees a block in its
+// default-allocator build must not be able to corrupt the C library's heap — glibc would detect that inside malloc,
+// abort while holding its arena lock, and the simulator, which recovers from the abort signal by siglongjmp, would
+// deadlock on its next malloc.  (Observed with a seeded change; §11.9 of DESIGN.md.)
 namespace {
+const size_t REF_ARENA = (size_t)6 << 30;  // virtual, MAP_NORESERVE
+uint8_t *g_refArena = nullptr;
+size_t g_refBump = 0, g_refHigh = 0;
 std::unordered_map<void *, size_t> g_refLive;  // block -> requested size
 int64_t g_refBadFrees = 0;
+void *refBump(size_t n) {
+    if (!g_refArena) {
+        void *m = mmap(nullptr, REF_ARENA, PROT_READ | PROT_WRITE, MAP_PRIVATE | MAP_ANONYMOUS | MAP_NORESERVE, -1, 0);
+        if (m == MAP_FAILED) return nullptr;
+        g_refArena = (uint8_t *)m;
+    }
+    size_t start = (g_refBump + 64 + 15) & ~(size_t)15;
+    size_t cap = (n + 15) & ~(size_t)15;
+    if (start + cap + 64 > REF_ARENA) return nullptr;
+    g_refBump = start + cap;
+    if (g_refBump > g_refHigh) g_refHigh = g_refBump;
+    return g_refArena + start;  // fresh pages of an anonymous mapping read as zero; the sweep re-zeroes what was used
+}
 }  // namespace
 int64_t refallocBadFrees() { return g_refBadFrees; }
 int64_t refallocLive() { return (int64_t)g_refLive.size(); }
 void refallocSweep() {
-    for (auto &kv : g_refLive) free(kv.first);
     g_refLive.clear();
     g_refBadFrees = 0;
+    if (g_refArena && g_refHigh) {
+        // give the pages back: the next use sees zero-filled memory again ("memory never used before reads as zero")
+        madvise(g_refArena, (g_refHigh + 4095) & ~(size_t)4095, MADV_DONTNEED);
+    }
+    g_refBump = 0;
+    g_refHigh = 0;
 }
 extern "C" {
 void *refalloc_malloc(size_t n) {
-    void *p = calloc(1, n ? n : 1);
+    void *p = refBump(n ? n : 1);
     if (p) g_refLive[p] = n;
     return p;
 }
@@ -665,11 +691,7 @@ void *refalloc_calloc(size_t a, size_t b) {
 }
 void refalloc_free(void *p) {
     if (!p) return;
-    if (!g_refLive.erase(p)) {
-        g_refBadFrees++;
-        return;
-    }
-    free(p);
+    if (!g_refLive.erase(p)) g_refBadFrees++;  // unknown or already freed: counted, otherwise ignored
 }
 void *refalloc_realloc(void *p, size_t n) {
     if (!p) return refalloc_malloc(n);
@@ -679,13 +701,11 @@ void *refalloc_realloc(void *p, size_t n) {
         return nullptr;
     }
     size_t old = it->second;
-    void *q = realloc(p, n ? n : 1);
-    if (q) {
-        g_refLive.erase(p);
-        g_refLive[q] = n;
-        // the model of the default allocator is "memory never used before reads as zero": the grown tail too
-        if (n > old) memset((uint8_t *)q + old, 0, n - old);
-    }
+    void *q = refBump(n ? n : 1);
+    if (!q) return nullptr;
+    memcpy(q, p, old < n ? old : n);  // the grown tail stays zero
+    g_refLive.erase(p);
+    g_refLive[q] = n;
     return q;
 }
 }
